@@ -19,6 +19,8 @@ func c11(p *core.Program, r *core.Report) {
 	r.Rule("R5", "iterator end-of-data discipline: every call of a (rowID, columnID, eof) or (value, eof) iterator method (Next/Peek) in package pilosa that uses the returned position also binds the eof result and reads it; an exhausted iterator returns the zero position, which is a real bit (row 0, column 0)")
 	r.Rule("R6", "one block, one extent: the positions fragment.mergeBlock admits into the vote for block id (the limit it puts on its iterators, read with the limit iterator's own comparison: inclusive or exclusive) are exactly the positions fragment.blockData(id) ships to the other replicas, [id*HashBlockSize*ShardWidth, (id+1)*HashBlockSize*ShardWidth); both are evaluated as linear forms in id")
 	c11BlockExtent(p, r)
+	r.Rule("R7", "both repairs reach every replica: in syncBlock's per-replica loop every path of an iteration that is not an error exit has, for each of the pair sets defined in the loop body (the replica's sets and its clears), either sent a request built from it (ImportRoaring with an argument derived from it) or tested its column list to be empty")
+	c11BothRepairsSent(p, r)
 	r.NotDecided = "the majority vote itself for all contents (the merge loop's iteration); convergence of checksums after a pass"
 	pk := p.Pkg("")
 	if pk == nil {
